@@ -317,6 +317,76 @@ def history_cases(an: str, bn: str) -> list[tuple[str, str]]:
     return out
 
 
+KINDS = {"cartesian": "LLL", "cylindrical": "LAL", "spherical": "LAA"}
+
+
+def shared_symbol_cases(an: str, bn: str) -> list[tuple[str, str]]:
+    """the two systems share some base-scalar *symbols* (a user naming the radial coordinate of the
+    cylindrical and of the spherical system with one symbol, which the constructors allow): every
+    injective assignment of A's scalars to B's slots of the same kind (length / angle).  The shared
+    symbol has different values in the two systems; point and vector conversion still keep the
+    position and the Cartesian components."""
+    from symplyphysics.core.experimental.coordinate_systems import convert_point, convert_vector
+    from symplyphysics.core.experimental.points import AppliedPoint
+    sy = systems()
+    A = sy[an]
+    own = sy[bn].base_scalars
+    out = []
+    options = []
+    for j in range(3):
+        options.append([None] + [i for i in range(3) if KINDS[an][i] == KINDS[bn][j]])
+    coeffs = (sp.Rational(3, 7), sp.Rational(-11, 5), sp.Rational(13, 3))
+    for choice in itertools.product(*options):
+        used = [c for c in choice if c is not None]
+        if not used or len(set(used)) != len(used):
+            continue
+        if an == bn and all(c == j for j, c in enumerate(choice)):
+            continue  # the same scalars in the same places: covered by the shared-scalars variant
+        scal = tuple(own[j] if c is None else A.base_scalars[c] for j, c in enumerate(choice))
+        label = "".join("-" if c is None else str(c) for c in choice)
+        try:
+            B = type(sy[bn])(base_scalars=scal)
+        except Exception as ex:  # pylint: disable=broad-except
+            out.append((f"shared-symbols:{an}->{bn}:{label}", ""))  # refusal is a fair answer
+            continue
+        for qa in POINTS[an][::3]:
+            tag = f"shared-symbols:{an}->{bn}:{label}:{qa}"
+            pos = position(an, qa)
+            try:
+                P = AppliedPoint(qa, A)
+                Pb = convert_point(P, B)
+                got_b = tuple(Pb.coordinates[s_] for s_ in B.base_scalars)
+                if not all(near(x, y) for x, y in zip(position(bn, got_b), pos)):
+                    out.append((tag, f"converted point {short(got_b)} is not at the original position"))
+                    continue
+                fa, fb = frame(an, qa), frame(bn, coords_of(bn, pos))
+                nb = B.base_vectors(Pb)
+                msg = ""
+                for cs_ in (coeffs, (1, 0, 0), (0, 1, 0), (0, 0, 1)):
+                    v = sum(c * e for c, e in zip(cs_, A.base_vectors(P)))
+                    ev = sp.expand(convert_vector(v, P, B))
+                    comps_b = [ev.coeff(e) for e in nb]
+                    rest = sp.expand(ev - sum(c * e for c, e in zip(comps_b, nb)))
+                    cart_a = [sum(cs_[j] * fa[j][i] for j in range(3)) for i in range(3)]
+                    cart_b = [sum(comps_b[k] * fb[k][i] for k in range(3)) for i in range(3)]
+                    try:
+                        ok = rest == 0 and all(near(x, y) for x, y in zip(cart_a, cart_b))
+                    except TypeError:
+                        ok = False
+                    if not ok:
+                        msg = (f"vector {cs_} at {qa} converted to {short(ev, 120)}: Cartesian "
+                            f"components differ from {short([sp.N(c, 8) for c in cart_a])}")
+                        break
+                out.append((tag, msg))
+            except ValueError:
+                # symbols shared across slots make the point's coordinate mapping collide; the
+                # library refuses ("The point must have all 3 coordinates defined"): a fair answer
+                out.append((tag, ""))
+            except Exception as ex:  # pylint: disable=broad-except
+                out.append((tag, f"conversion raised {type(ex).__name__}: {short(ex)}"))
+    return out
+
+
 def axis_frame(name: str, q: tuple) -> list[tuple]:
     """local frame as the limit of the unit vectors (on the polar axis the derivative of the
     position with respect to the azimuth vanishes, the unit vector does not)"""
@@ -402,6 +472,7 @@ def _work(item: tuple) -> dict:
     kind = item[0]
     cases = (pair_cases(*item[1:]) if kind == "pair" else triple_cases(*item[1:]) if kind == "triple"
         else history_cases(*item[1:]) if kind == "history" else axis_cases() if kind == "axis" else
+        shared_symbol_cases(*item[1:]) if kind == "shared" else
         lame_cases())
     res: dict[str, Any] = {"n": len(cases), "keys": [k for k, _ in cases], "outcomes": {},
         "violations": [], "samples": [cases[len(cases) // 2][0]] if cases else []}
@@ -422,6 +493,7 @@ def main(run: Run) -> int:
     items.append(("lame", ))
     items.append(("axis", ))
     items += [("history", a, b) for a, b in itertools.product(NAMES, repeat=2)]
+    items += [("shared", a, b) for a, b in itertools.product(NAMES, repeat=2)]
     for r in pmap(_work, rotate(items, run.seed)):
         n = r.pop("n")
         run.evaluations += n
@@ -432,7 +504,7 @@ def main(run: Run) -> int:
         "of each domain x {scalar round trip, scalars vs geometry, orthonormality, determinant, "
         "inverse, rotation vs local frames, composition via the third system, convert_point, "
         "convert_vector on 4 vectors}; the same with the second system built on the base vectors / "
-        "base scalars of another instance (optional constructor arguments); conversion histories of one point object (two instances of "
+        "base scalars of another instance (optional constructor arguments), and with every injective sharing of single base-scalar symbols between the two systems; conversion histories of one point object (two instances of "
         "the target type, back, third type, again; point first / vector first); Lame coefficients and Jacobian at every lattice point",
         exhaustive=True,
         assumptions=["lattice points inside each system's domain, away from the axis (plus points on "
